@@ -7,6 +7,7 @@
 -/
 import Frost.Proofs.Wire
 import Frost.Proofs.WireRef
+import Frost.Proofs.Ed25519Canon
 import Frost.Model.Json
 
 set_option linter.unusedSectionVars false
@@ -282,6 +283,21 @@ theorem sec1_canonical (c : WeiCurve) (hp : c.p % 2 = 1) (b : Bytes) (P : WPoint
 theorem p256_canon : BaseCanon (weiBase p256 "FROST-P256-SHA256-v1") := wei_canon _ _ (by decide)
 theorem secp256k1_canon : BaseCanon (weiBase secp256k1 "FROST-secp256k1-SHA256-v1") := wei_canon _ _ (by decide)
 theorem ed448_canon : BaseCanon ed448Base := Frost.Ref.ed448_canon
+
+/-- …and for Ed25519, whose decoder has NO explicit canonicity test (it relies on every
+    non-canonical encoding being undecodable, the identity or of non-prime order): an accepted
+    32-byte string is the encoding of the decoded point.  Proof: bit-layout arithmetic for a
+    reduced `y` with a consistent sign bit; `x = 0` forces `y = ±1` because `2^255 − 19` is prime
+    (`p25519_prime`, a kernel-checked Pratt certificate); the remaining 40 strings (19 non-reduced
+    `y` × 2 sign bits, and `x = 0` with the sign bit set) are evaluated by the kernel. -/
+theorem ed25519_canon : BaseCanon ed25519Base := Frost.Ref.ed25519_canon
+
+theorem ed25519_noncanonical_rejected :
+    (List.range 19).all (fun k => (List.range 2).all fun s =>
+      Frost.Ref.rejects25519 (Frost.Ref.natToLE (Frost.Ref.p25 + k + s * 2 ^ 255) 32)) = true :=
+  Frost.Ref.noncanonical_y_rejected
+
+theorem p25519_prime : Nat.Prime (2 ^ 255 - 19) := Frost.Ref.p25519_prime
 
 /-- …and the toy suite satisfies every law, so the round-trip theorems are not vacuous -/
 theorem toy31_instance : BaseLaws toy31.toBase okS31 okE31 ∧ BaseCanon toy31.toBase :=
